@@ -168,6 +168,9 @@ func (e *SegCrashEngine) stop() bool {
 
 // Run explores breadth first from the empty directory.
 func (e *SegCrashEngine) Run() {
+	if e.C.Shard == 0 {
+		e.largeBatches()
+	}
 	frontier := []*segNode{{st: simdisk.NewState()}}
 	for level := 1; level <= e.C.Depth && len(frontier) > 0; level++ {
 		var next []*segNode
@@ -266,7 +269,13 @@ func (e *SegCrashEngine) crashBatch(n *segNode, level int, shape []int) []*segNo
 		}
 		acked := cp.Acked >= 1
 		inflight := cp.Inflight == 1
-		cp.model.Enumerate(1<<14, func(img *simdisk.State, info simdisk.ImageInfo) bool {
+		enumerate := func(fn func(img *simdisk.State, info simdisk.ImageInfo) bool) { cp.model.Enumerate(1<<14, fn) }
+		if total := sumInts(shape); total > 16384 {
+			// a write of this size has far too many torn images; take "reached the disk up to some offset"
+			// at a stride that is not a multiple of the frame alignment
+			enumerate = func(fn func(img *simdisk.State, info simdisk.ImageInfo) bool) { cp.model.EnumeratePrefixes(61, fn) }
+		}
+		enumerate(func(img *simdisk.State, info simdisk.ImageInfo) bool {
 			e.Stats.Images++
 			ih := img.Hash()
 			if !e.Stats.ImgHashes[ih] {
@@ -312,6 +321,59 @@ func (e *SegCrashEngine) crashBatch(n *segNode, level int, shape []int) []*segNo
 	return kids
 }
 
+func sumInts(v []int) int {
+	t := 0
+	for _, x := range v {
+		t += x
+	}
+	return t
+}
+
+// largeBatches: batches whose frames exceed the writer's 64 KiB buffer several times over, as the first batch
+// of the segment and after a committed small one; crash images = every prefix of the batch's write (stride 61
+// chunks). A batch is present in full or absent in full.
+func (e *SegCrashEngine) largeBatches() {
+	depth := e.C.Depth
+	e.C.Depth = 0 // no expansion below these images
+	defer func() { e.C.Depth = depth }()
+	root := &segNode{st: simdisk.NewState()}
+	// a node with one small committed batch: record it and take the image after the clean close
+	var after *segNode
+	{
+		mountSeq++
+		d := simdisk.NewDisk(fmt.Sprintf("s%d", mountSeq), simdisk.NewState())
+		dir := simdisk.Register(d)
+		p := segPayload(1, 1, 8)
+		ok := false
+		vsched.Run(vsched.DefaultChooser{}, 0, false, func() {
+			f := segment.NewFiler(dir, fs.New())
+			w, err := f.Create(segInfo)
+			if err != nil {
+				return
+			}
+			if w.Append([]types.LogEntry{{Index: 1, Data: p}}) == nil {
+				ok = true
+			}
+			w.Close()
+		})
+		simdisk.Unregister(d)
+		if ok {
+			after = &segNode{st: d.Volatile(), entries: [][]byte{p}, gen: 1}
+		}
+	}
+	for _, n := range []*segNode{root, after} {
+		if n == nil {
+			continue
+		}
+		for _, shape := range [][]int{{40000, 40000, 40000}, {70000, 100, 70000}} {
+			if e.stop() {
+				return
+			}
+			e.crashBatch(n, 1, shape)
+		}
+	}
+}
+
 func sameEntries(a, b [][]byte) bool {
 	if len(a) != len(b) {
 		return false
@@ -325,13 +387,81 @@ func sameEntries(a, b [][]byte) bool {
 }
 
 func entriesDiff(got, want [][]byte) string {
+	short := func(b []byte) string {
+		if len(b) > 24 {
+			return fmt.Sprintf("%x... (%d bytes)", b[:24], len(b))
+		}
+		return fmt.Sprintf("%x", b)
+	}
 	for i := range got {
 		if i >= len(want) {
-			return fmt.Sprintf("(extra entry %d = %x)", i+1, got[i])
+			return fmt.Sprintf("(extra entry %d = %s)", i+1, short(got[i]))
 		}
 		if !bytes.Equal(got[i], want[i]) {
-			return fmt.Sprintf("(entry %d = %x, submitted %x)", i+1, got[i], want[i])
+			return fmt.Sprintf("(entry %d = %s, submitted %s)", i+1, short(got[i]), short(want[i]))
 		}
 	}
 	return ""
+}
+
+// ---------------------------------------------------------------------------
+// Filer.Delete under failing steps (C07: "a segment deletion is followed by a directory fsync before it is
+// reported done").
+
+// FilerDeleteCase: a committed segment file exists; Delete runs with the at-th faultable step failing in the
+// given flavour; when it reports an error it is called again on a healthy disk (a caller retrying). Whenever
+// a Delete call returns nil, no crash image of the disk may still contain the file.
+func FilerDeleteCase(at int, kind simdisk.FaultKind) (viol []string, steps int, outcome string) {
+	mountSeq++
+	d := simdisk.NewDisk(fmt.Sprintf("fd%d", mountSeq), simdisk.NewState())
+	dir := simdisk.Register(d)
+	defer simdisk.Unregister(d)
+	name := segment.FileName(segInfo)
+	res := vsched.Run(vsched.DefaultChooser{}, 0, false, func() {
+		f := segment.NewFiler(dir, fs.New())
+		w, err := f.Create(segInfo)
+		if err != nil {
+			viol = append(viol, "INTERNAL create: "+err.Error())
+			return
+		}
+		if err := w.Append([]types.LogEntry{{Index: 1, Data: segPayload(1, 0, 8)}}); err != nil {
+			viol = append(viol, "INTERNAL append: "+err.Error())
+			return
+		}
+		w.Close()
+		before := d.FaultOps
+		d.FaultAt, d.FaultKind = before+at, kind
+		check := func(what string) {
+			cps := CrashPoints(simdisk.NewState(), d.BaseIno, d.Log)
+			if len(cps) == 0 {
+				return
+			}
+			cps[len(cps)-1].model.Enumerate(1<<12, func(img *simdisk.State, info simdisk.ImageInfo) bool {
+				if _, ok := img.Files[name]; ok {
+					viol = append(viol, fmt.Sprintf("%s returned nil but a crash right after it can bring %s back (%s): no directory fsync followed the unlink", what, name, info.Desc))
+					return false
+				}
+				return true
+			})
+		}
+		err = f.Delete(segInfo.BaseIndex, segInfo.ID)
+		steps = d.FaultOps - before
+		d.FaultAt = -1
+		if err == nil {
+			outcome = "first call ok"
+			check("Delete")
+			return
+		}
+		err2 := f.Delete(segInfo.BaseIndex, segInfo.ID)
+		if err2 == nil {
+			outcome = "first call failed, retry ok"
+			check(fmt.Sprintf("Delete retried after a failed call (%v)", err))
+		} else {
+			outcome = "first call failed, retry failed"
+		}
+	})
+	for _, p := range res.Panics {
+		viol = append(viol, "panic: "+p.Val)
+	}
+	return viol, steps, outcome
 }
